@@ -33,7 +33,7 @@ from ..runner import Outcome
 ID = "C18"
 LEVEL = "exploration"
 DESIGN_REF = "DESIGN.md section 6, C18"
-RULE = ("history of 8-26 IOSpec life-cycle operations over 1-2 models; non-trivial = some spec-carrying value was at some "
+RULE = ("history of 10-32 IOSpec life-cycle operations over 1-2 models; non-trivial = some spec-carrying value was at some "
         "point bound to >=2 references one of which was derived, and at least one rebinding or deletion followed; "
         "distinct = case hash")
 ASSUMPTIONS = [
@@ -45,6 +45,10 @@ SIGNATURES = {}
 NAMES = ["d0", "d1", "d2", "x"]
 PATHS = ["a.csv", "b.csv", "book.xlsx", "sub/c.csv"]
 SHEETS = [None, "s1", "s2", "Sheet1"]
+MOD_PATHS = ["mods/m0.py", "mods/m1.py", "a.csv"]
+RANGE_PATHS = ["rng.xlsx", "rng.xlsx", "book.xlsx"]
+RANGES = ["A1:B3", "B2:C4", "D1:E2"]          # the first two overlap
+MOD_SRC = ["K = 1\ndef triple(x):\n    return 3 * x\n", "K = 2\ndef triple(x):\n    return 30 * x\n"]
 
 
 def plan(tier):
@@ -57,12 +61,12 @@ def plan(tier):
 def histories(draw):
     nmodels = draw(st.integers(1, 2))
     ops = []
-    for _ in range(draw(st.integers(8, 26))):
-        k = draw(st.integers(0, 17))
+    for _ in range(draw(st.integers(10, 32))):
+        k = draw(st.integers(0, 21))
         mi = draw(st.integers(0, nmodels - 1))
         where = draw(st.sampled_from(["A", "A", "A", "B", "C", ""]))     # B derives from A; "" = model level
         name = draw(st.sampled_from(NAMES))
-        vi = draw(st.sampled_from([0, 0, 1, 1, 2, 3]))
+        vi = draw(st.sampled_from([0, 0, 1, 1, 2, 3, 10, 11, 20, 21, 22]))
         if k <= 3:
             path = draw(st.sampled_from(PATHS))
             sheet = draw(st.sampled_from(SHEETS)) if path.endswith("xlsx") else None
@@ -88,6 +92,15 @@ def histories(draw):
             ops.append(["del_space", mi, draw(st.sampled_from(["B", "C"]))])
         elif k == 15:
             ops.append(["close", mi])
+        elif k == 18:
+            ops.append(["new_module", mi, where, name, draw(st.sampled_from(MOD_PATHS)), draw(st.integers(0, 1))])
+        elif k == 19:
+            ops.append(["new_range", mi, where, name, draw(st.sampled_from(RANGE_PATHS)), draw(st.integers(0, 2)),
+                        draw(st.booleans())])
+        elif k == 20:
+            ops.append(["update_module", mi, draw(st.integers(0, 1)), draw(st.sampled_from([None, 0, 1]))])
+        elif k == 21:
+            ops.append(["range_set", mi, draw(st.integers(0, 2)), draw(st.integers(100, 999))])
         elif k == 17:
             # two values asked into one workbook (every pairing of unnamed / named / default-named sheets),
             # then written and read back
@@ -144,6 +157,8 @@ class ModelState:
         self.open = True
 
     def value(self, i):
+        if i >= 10:
+            return self.values.get(i)       # modules (10, 11) and Excel ranges (20..22): the latest one created
         if i not in self.values:
             self.values[i] = make_value(i)
         return self.values[i]
@@ -187,9 +202,18 @@ def check_model(st_, out, op, i):
         if id(sp.value) not in want:
             return out.fail("manager-leak", "after %r the io manager still holds %r (path %s) whose value no reference "
                                             "of the model is bound to" % (op, sp, path), i)
-    locs = [(p, s) for p, s, _ in held]
+    locs = []
+    for p_, s_, sp in held:
+        rng = getattr(sp, "range", None)
+        if rng is None or not isinstance(rng, str):
+            locs.append((p_, s_))
+        else:
+            from openpyxl.utils import range_boundaries
+            c0, r0, c1, r1 = range_boundaries(rng)
+            locs.extend((p_, s_, r, c) for r in range(r0, r1 + 1) for c in range(c0, c1 + 1))
     if len(set(locs)) != len(locs):
-        return out.fail("location-shared", "after %r two specs claim the same location: %r" % (op, sorted(locs, key=repr)), i)
+        return out.fail("location-shared", "after %r two specs claim the same location: %r" % (
+            op, sorted((x for x in set(locs) if locs.count(x) > 1), key=repr)[:4]), i)
     for vid, (v, path, sheet) in st_.carrying.items():
         try:
             sp = m.get_spec(v)
@@ -213,7 +237,24 @@ def run_case(case):
         shutil.rmtree(tmp, ignore_errors=True)
 
 
+def prepare_files():
+    """source workbook and module files the histories load from (in the case's scratch directory)"""
+    import openpyxl
+    wb = openpyxl.Workbook()
+    ws = wb.active
+    ws.title = "Sheet1"
+    for r in range(1, 7):
+        for c in range(1, 7):
+            ws.cell(r, c, r * 10 + c)
+    wb.save("src.xlsx")
+    for j, src in enumerate(MOD_SRC):
+        with open("mod%d.py" % j, "w") as f:
+            f.write(src)
+
+
 def _run(case, out, tmp):
+    if any(op[0] in ("new_module", "new_range") for op in case["ops"]):
+        prepare_files()
     models = [ModelState(j) for j in range(case.get("nmodels", 1))]
     nt = False
     multi = set()       # ids of values that were bound to >=2 references incl. a derived one
@@ -244,6 +285,7 @@ def _run(case, out, tmp):
                 err = exc
             if ok:
                 st_.carrying[id(v)] = (v, path, sheet)
+                out.count("accepted_creations")
             else:
                 out.count("rejected_creations")
                 try:
@@ -255,8 +297,76 @@ def _run(case, out, tmp):
                     return out.fail("rejected-creation-residue", "%r raised %r but left a change: %s" % (op, err, r), i)
                 if {id(s) for s in m.iospecs} != specs_before:
                     return out.fail("rejected-creation-residue", "%r raised %r but model.iospecs changed" % (op, err), i)
+        elif k in ("new_module", "new_range"):
+            try:
+                sp_ = st_.space(op[2])
+            except KeyError:
+                continue
+            name, path = op[3], op[4]
+            try:
+                if k == "new_module":
+                    v = sp_.new_module(name, path, "mod%d.py" % op[5])
+                    slot = 10 + op[5]
+                else:
+                    v = sp_.new_excel_range(name, path, RANGES[op[5]], sheet="Sheet1", loadpath="src.xlsx",
+                                            keyids=["r0"] if op[6] else None)
+                    slot = 20 + op[5]
+                ok = True
+            except Exception as exc:
+                ok = False
+                err = exc
+            if ok:
+                st_.values[slot] = v
+                st_.carrying[id(v)] = (v, path, None)
+                out.count("modules_and_ranges")
+            else:
+                out.count("rejected_creations")
+                try:
+                    r = diff(before, model_desc(m))
+                except Exception as exc:
+                    return out.fail("rejected-creation-corrupts", "after rejected %r (%r) the model cannot be described: %r" % (
+                        op, err, exc), i)
+                if r:
+                    return out.fail("rejected-creation-residue", "%r raised %r but left a change: %s" % (op, err, r), i)
+                if {id(s) for s in m.iospecs} != specs_before:
+                    return out.fail("rejected-creation-residue", "%r raised %r but model.iospecs changed" % (op, err), i)
+        elif k == "update_module":
+            old = st_.value(10 + op[2])
+            if old is None or id(old) not in st_.carrying:
+                continue
+            where_old = [(c_, n_) for c_, n_, v_ in all_refs(m) if v_ is old]
+            try:
+                spec = m.get_spec(old)
+                if op[3] is None:
+                    m.update_module(old)
+                else:
+                    m.update_module(old, "mod%d.py" % op[3])
+            except Exception:
+                out.count("rejected_updates")
+            else:
+                new = spec.value
+                now = {(c_, n_): v_ for c_, n_, v_ in all_refs(m)}
+                for key in where_old:
+                    if key not in now or now[key] is not new or new is old:
+                        return out.fail("update-module", "after %r the reference %s.%s is not bound to the new module" % (
+                            op, key[0], key[1]), i)
+                _, path, _ = st_.carrying.pop(id(old))
+                st_.carrying[id(new)] = (new, path, None)
+                st_.values[10 + op[2]] = new
+                nt = nt or bool(multi)
+        elif k == "range_set":
+            rng = st_.value(20 + op[2])
+            if rng is None or id(rng) not in st_.carrying:
+                continue
+            try:
+                key = sorted(rng.keys(), key=repr)[0]
+                rng[key] = op[3]
+            except Exception as exc:
+                return out.fail("range-set-raised", "%r raised %r" % (op, exc), i)
         elif k == "assign":
             _, _, where, name, vi = op
+            if st_.value(vi) is None:
+                continue
             try:
                 setattr(st_.space(where), name, st_.value(vi))
             except Exception:
@@ -284,6 +394,8 @@ def _run(case, out, tmp):
             _, _, vi, wi = op
             old = st_.value(vi)
             new = st_.value(wi)
+            if old is None or not isinstance(old, (pd.DataFrame, pd.Series)):
+                continue
             try:
                 m.update_pandas(old, new)
                 if id(old) in st_.carrying:
@@ -352,6 +464,14 @@ def _run(case, out, tmp):
 
 
 def equal_value(a, b):
+    import types
+    try:
+        if isinstance(a, types.ModuleType):
+            return isinstance(b, types.ModuleType) and a.K == b.K and a.triple(2) == b.triple(2)
+        if hasattr(a, "range") and hasattr(a, "keys") and not isinstance(a, (pd.DataFrame, pd.Series)):
+            return hasattr(b, "keys") and dict(a) == dict(b)
+    except Exception:
+        return False
     try:
         if isinstance(a, pd.DataFrame) and isinstance(b, pd.DataFrame):
             return a.reset_index(drop=False).astype(float).equals(b.reset_index(drop=False).astype(float))
